@@ -3,6 +3,7 @@ from __future__ import annotations
 import ast
 import collections
 import copy
+import io
 import itertools
 import re
 import string
@@ -189,7 +190,8 @@ def _fix_undefined_variables(source: str, variables: Collection[str]) -> str:
     # The imports go before the first statement that is not the docstring of the module or a
     # __future__ import. All other lines are kept as they are, with their line endings.
     root = core.parse(source)
-    lines = source.splitlines(keepends=True)
+    # The lines that the parser sees: a form feed does not end a line
+    lines = io.StringIO(source, newline="").readlines()
     lineno = len(lines)
     for i, node in enumerate(root.body):
         if i == 0 and core.match_template(node, ast.Expr(value=ast.Constant(value=str))):
